@@ -225,7 +225,7 @@ func init() {
 			}
 		}})
 
-	register(&Obligation{ID: "C18.c", Props: []string{"C18"}, Template: "must-precede.err-checked",
+	register(&Obligation{ID: "C18.c", Props: []string{"C18", "C03", "C07"}, Template: "must-precede.err-checked",
 		Desc: "a compaction returns a change set only if the scan error and the table writer's error were both tested nil",
 		Run: func(r *Run) {
 			writeRun := r.P.FuncObj("dkv/sst", "(*TableWriter).WriteRun")
